@@ -61,12 +61,17 @@ def hostile_archive(r):
             method = b"-lh0-"        # a hostile byte that spells a real method would make `p` dump decoded (non-printable) data
         name = hostile(r, avoid=b"\x00/\\\xff|")
         pathc = hostile(r, r.randrange(1, 5), avoid=b"\x00/\\\xff|")
+        if lvl == 2 and r.random() < 0.3:
+            # long strings (a formatted line of 1 KiB and more): level-2 headers carry names, paths and link targets of any length
+            name = hostile(r, r.choice([300, 600, 1023, 1024, 1500]), avoid=b"\x00/\\\xff|")
+            if r.random() < 0.5:
+                pathc = hostile(r, r.choice([200, 600, 1100]), avoid=b"\x00/\\\xff|")
         exts = []
         if kind == "dir":
             method = b"-lhd-"
         if kind == "link":
             method = b"-lhd-"
-            name = name + b"|" + hostile(r, avoid=b"\x00")
+            name = name + b"|" + hostile(r, r.choice([None, None, 700, 1400]) if lvl == 2 else None, avoid=b"\x00")
             exts.append((E.EXT_PERM, (0o120777).to_bytes(2, "little")))
         if r.random() < 0.4:
             exts.append((E.EXT_USER, hostile(r)))
@@ -96,6 +101,8 @@ def gen_cases(ctx, n):
         out.append(Case("safe %02x41" % b, tags={"safe-op"}))
     for _ in range(200):
         out.append(Case("safe " + S.rand_bytes(r, r.randrange(1, 30)).hex(), tags={"safe-op"}))
+    for ln in (255, 256, 511, 512, 1022, 1023, 1024, 1025, 2047, 2048, 4096, 5000, 70000):
+        out.append(Case("safe " + hostile(r, ln).hex(), tags={"safe-op", "long"}))
     for i in range(n):
         d = hostile_archive(r)
         for mode in (r.sample(MODES, 5) if ctx.tier == "quick" else MODES):
